@@ -224,6 +224,8 @@ def run(ctx):
                     logger.removeHandler(h)
                     h.close()
                 reset_logging([name])
+        # ---------------------------------------------------------------- set-up model (ZCV/Model/LoggerSetup.lean)
+        _setup_model(ctx, rng, tmp)
         # ---------------------------------------------------------------- formats
         _formats(ctx, rng, tmp)
         # ---------------------------------------------------------------- registry
@@ -397,3 +399,96 @@ def _registry(ctx, rng, tmp, loghandler):
             h.close()
         live.clear()
         gc.collect()
+
+
+def _setup_model(ctx, rng, tmp):
+    """several logger sections (distinct names, the same name twice, the name 'root', an eventlog) with 0..3 handlers each;
+    the factories are called in a random order with repetitions; the loggers returned and the final state of every logger
+    (level, propagate, handlers by identity / format / level) are compared with the model of factory.Factory and
+    logger.LoggerFactoryBase (driver op `logsetup`)"""
+    from ..sexp import Atom
+    for trial in range(60 if ctx.thorough() else 14):
+        nf = rng.randint(1, 4)
+        pool = ["zcv.c20.s%d" % rng.randint(0, 2), "zcv.c20.t", "root", "zcv.c20.s0"]
+        specs, lines = [], []
+        ev_used = False
+        for i in range(nf):
+            ev = (not ev_used) and rng.random() < 0.3
+            ev_used = ev_used or ev
+            name = None if ev else rng.choice(pool)
+            level = rng.choice([10, 13, 20, 30, 47])
+            prop = rng.random() < 0.5
+            hs = []
+            blk = ["<eventlog>", "  level %d" % level] if ev else ["<logger>", "  name " + name, "  level %d" % level,
+                                                                 "  propagate " + ("yes" if prop else "no")]
+            for j in range(rng.choice([0, 1, 1, 2, 3])):
+                hl = rng.choice([10, 20, 17, 40])
+                fmt = "f%d.%d:%%(message)s" % (i, j)
+                hs.append([fmt, hl])
+                blk += ["  <logfile>", "    path " + rng.choice(["STDOUT", "STDERR", os.path.join(tmp, "sm%d_%d_%d.log" % (trial, i, j))]),
+                        "    level %d" % hl, "    format " + fmt, "  </logfile>"]
+            blk.append("</eventlog>" if ev else "</logger>")
+            specs.append([Atom("eventlog" if ev else "logger"), name, level, prop, hs, ev])
+            lines.append((ev, blk))
+        # the schema wants the eventlog section first or anywhere: order of sections in the text = order of factories below
+        text = "\n".join(l for _, blk in lines for l in blk) + "\n"
+        r = load(text)
+        ctx.evaluations += 1
+        if r[0] != "ok":
+            ctx.count("setup-model:not-loaded")
+            continue
+        cfg = r[1]
+        logger_facs = list(cfg.loggers)
+        facs = []
+        for sp in specs:
+            facs.append(cfg.eventlog if sp[5] else logger_facs.pop(0))
+        calls = [rng.randrange(nf) for _ in range(rng.randint(1, 6))]
+        names = sorted({sp[1] for sp in specs if sp[1]} | {""})
+        reset_logging(names)
+        saved = logging.getLogger().handlers[:]
+        logging.getLogger().handlers[:] = []
+        try:
+            returned = []
+            try:
+                for i in calls:
+                    returned.append(facs[i]().name)
+            except Exception as e:
+                ctx.violate("logger factory raised %s" % type(e).__name__, {"text": text, "calls": calls}, signature="C20:factory:exc")
+                continue
+            ids = {}
+            real_world = {}
+            for n in names:
+                lg = logging.getLogger(n) if n else logging.getLogger()
+                hl = []
+                for h in lg.handlers:
+                    ids.setdefault(id(h), len(ids))
+                    isnull = isinstance(h, logging.NullHandler)
+                    hl.append([None if isnull else getattr(h.formatter, "_fmt", None), None if isnull else h.level])
+                if lg.handlers or lg.level not in (0,) or n == "" or not lg.propagate:
+                    real_world[lg.name] = [lg.level, bool(lg.propagate), hl]
+            ctx.nontriv(("setup-model", text, tuple(calls)))
+            if ctx.driver_ok:
+                a = core.driver_batch([[Atom("logsetup"), [sp[:5] for sp in specs], calls]])[0]
+                m_ret = list(a[0])
+                m_world = {}
+                for k, lv, pr, hs in a[1]:
+                    m_world[k] = [int(lv), pr == "t", [[None if f == "none" else f, None if l == "none" else int(l)] for _, f, l in hs]]
+                # loggers the model never touched are absent from its table; drop untouched real ones the same way
+                rw = {k: v for k, v in real_world.items() if k in m_world or v[2] or k != "root"}
+                rw = {k: v for k, v in rw.items() if k in m_world or v != [30 if k == "root" else 0, True, []]}
+                ctx.count("setup-model:compared")
+                if trial == 0:
+                    ctx.sample({"setup_calls": calls, "returned": returned, "world": rw})
+                if m_ret != returned or m_world != rw:
+                    ctx.disagree("logger-setup", {"text": text, "calls": calls}, [returned, rw], [m_ret, m_world])
+        finally:
+            for n in names:
+                lg = logging.getLogger(n) if n else logging.getLogger()
+                for h in list(lg.handlers):
+                    lg.removeHandler(h)
+                    try:
+                        h.close()
+                    except Exception:
+                        pass
+            reset_logging(names)
+            logging.getLogger().handlers[:] = saved
